@@ -7,6 +7,9 @@ Line protocol for K_C16 (one input line → one output line).
             slowscan race ndirs clear obf clearfail obffail mode(all|any|clear) dirs files      (lists: `a,b,c` or `-`)
   `start` `login` `logincut <j>` `exec` `populate` `search` `wl` `pp` `sr` `loss <reason>` `tick <n>` `srvup 0|1`
   `srvreply accepted|rejected|garbled|eof` `stop`
+  `loginbreak pre|<j> writefail|stop|srveof|close [<reason>]`   (a login interrupted before the reply / at burst write j)
+  `lossheld <reason>` `release` `connect` `lossrec <reason>`    (lossrec = loss; connect; login — a listener of the
+                                                                  application reconnects inside the CLOSED event)
       → `att=… conn=… closed=… login=… init=… destr=… res=… exec=… fail=… inv=… frames=… | c=… s=… tasks=… tracked=… u=… r=… p=… open=…`
   unknown line → `error`
 -/
@@ -124,12 +127,25 @@ def parseCfg (toks : List String) : Option Config :=
     | [k, v] => setKey c k v
     | _ => none) ({} : Config)
 
-def parseOps (c : Config) (toks : List String) : Option (List Op) :=
+def parsePos : String → Option (Option Nat)
+  | "pre" => some none
+  | s => s.toNat?.map some
+
+def parseOps (_c : Config) (toks : List String) : Option (List Op) :=
   match toks with
   | ["start"] => some [.start]
   | ["login"] => some [.login]
-  -- residual / delivery are masked in K (known finding); the driver fills in the typical values
-  | ["logincut", j] => j.toNat?.map fun j => [.loginCut j j (typicalResidual c j) (decide (j < 4))]
+  -- how many frames are delivered is up to the network and masked in K; the driver fills in the typical value
+  | ["logincut", j] => j.toNat?.map fun j => [.loginBreak (some j) j .writeFail]
+  | ["loginbreak", pos, "writefail"] => (parsePos pos).map fun p => [.loginBreak p (p.getD 0) .writeFail]
+  | ["loginbreak", pos, "stop"] => (parsePos pos).map fun p => [.loginBreak p (p.getD 0 + 1) .stop]
+  | ["loginbreak", pos, "srveof"] => (parsePos pos).map fun p => [.loginBreak p (p.getD 0 + 1) .srvEof]
+  | ["loginbreak", pos, "close", r] =>
+      (parsePos pos).bind fun p => (parseReason r).map fun r => [.loginBreak p (p.getD 0 + 1) (.close r)]
+  | ["lossheld", r] => (parseReason r).map fun r => [.lossHeld r]
+  | ["release"] => some [.release]
+  | ["connect"] => some [.connect]
+  | ["lossrec", r] => (parseReason r).map fun r => [.loss r, .connect, .login]
   | ["exec"] => some [.exec]
   | ["populate"] => some [.populate]
   | ["search"] => some [.search]
@@ -160,7 +176,7 @@ partial def loop (h : IO.FS.Stream) (out : IO.FS.Stream) (c : Config) (st : Stat
     | some ops =>
       let (st', o) := run c st ops
       -- the result of login() is visible to its caller only: not for the automatic re-login of the watchdog
-      let showRes := match ops with | [.login] | [.loginCut _ _ _ _] => true | _ => false
+      let showRes := match ops with | [.login] | [.loginBreak _ _ _] => true | _ => false
       out.putStrLn (summary c showRes st' o)
       loop h out c st'
     | none => out.putStrLn "error"; loop h out c st
